@@ -106,7 +106,7 @@ def run(case):
                 return tap.put(p)
         tap = PreColour()
     start_injector(w, tap, [tuple([t0 + x[0]] + list(x[1:])) for x in case.get('workload', [])])
-    w.run(max_steps=20000)
+    w.run(max_steps=20000 * (40 if case.get('long_life') else 1))
     viol, stats, nontrivial = check(w, case)
     if case.get('t0'):
         stats['clock_origin_nonzero'] = 1
@@ -256,9 +256,10 @@ def check(w, case):
         prev_fwd = fwd
     # pairwise conformance on debit instants (and peak spacing)
     tol = 1e-6 if mode == 'FLOAT' else 0.0
-    for i in range(len(debits)):
+    span = len(debits) if len(debits) <= 400 else 80     # long lives: windows of 80 departures (the recurrence above
+    for i in range(len(debits)):                          # has already been checked packet by packet)
         tot = 0
-        for j in range(i, len(debits)):
+        for j in range(i, min(len(debits), i + span)):
             tot += debits[j][1]
             bound = max(B, debits[i][1]) + rate * (debits[j][0] - debits[i][0]) / 8.0
             if tot > bound * (1 + tol) + tol:
@@ -274,7 +275,7 @@ def check(w, case):
         for i in range(len(gs)):
             tot = 0
             bad = False
-            for j in range(i, len(gs)):
+            for j in range(i, min(len(gs), i + span)):
                 tot += gs[j][1]
                 bound = cbs + cir * (gs[j][0] - gs[i][0]) / 8.0
                 if tot > bound * (1 + tol) + tol:
@@ -299,3 +300,16 @@ def check(w, case):
 
 def _near_boundary(size, L, rate):
     return False
+
+
+_gen_short = gen
+
+
+def gen(rng, tier):
+    case = _gen_short(rng, tier)
+    if rng.random() < 1 / 80 and not case.get('epoch_fast') and len(case.get('workload', [])) >= 3:
+        # a long life: the same pattern of bursts, gaps and coincidences over and over, thousands of packets in all
+        from ..net import stretch_workload
+        case['workload'] = stretch_workload(case['workload'], 1700)
+        case['long_life'] = True
+    return case
